@@ -24,8 +24,10 @@ import (
 
 	"github.com/prometheus/prometheus/model/exemplar"
 	"github.com/prometheus/prometheus/model/labels"
+	"github.com/prometheus/prometheus/storage"
 	"github.com/prometheus/prometheus/tsdb"
 	"github.com/prometheus/prometheus/tsdb/record"
+	"github.com/prometheus/prometheus/tsdb/tombstones"
 	"github.com/prometheus/prometheus/tsdb/wlog"
 
 	"verif/internal/core"
@@ -140,6 +142,43 @@ func flipByte(r *rand.Rand, path string, from int) (int, bool) {
 	return i, true
 }
 
+// headTombstones copies the head's tombstones (entries with Mint > Maxt are dropped).
+func headTombstones(e *tsdbhist.Exec) map[storage.SeriesRef][]tombstones.Interval {
+	out := map[storage.SeriesRef][]tombstones.Interval{}
+	tr, err := e.DB.Head().Tombstones()
+	if err != nil {
+		return out
+	}
+	tr.Iter(func(ref storage.SeriesRef, ivs tombstones.Intervals) error {
+		for _, iv := range ivs {
+			if iv.Mint <= iv.Maxt {
+				out[ref] = append(out[ref], iv)
+			}
+		}
+		return nil
+	})
+	return out
+}
+
+// covers: every interval of want lies inside an interval of have (same series ref).
+func covers(have, want map[storage.SeriesRef][]tombstones.Interval) bool {
+	for ref, ws := range want {
+		for _, w := range ws {
+			ok := false
+			for _, h := range have[ref] {
+				if h.Mint <= w.Mint && w.Maxt <= h.Maxt {
+					ok = true
+					break
+				}
+			}
+			if !ok {
+				return false
+			}
+		}
+	}
+	return true
+}
+
 type exKey struct{ series, labels, val string }
 
 func exemplarSet(e *tsdbhist.Exec) (map[exKey]bool, error) {
@@ -161,6 +200,7 @@ func exemplarSet(e *tsdbhist.Exec) (map[exKey]bool, error) {
 }
 
 type opened struct {
+	tombs         map[storage.SeriesRef][]tombstones.Interval // head tombstones after the reopen
 	sample, chunk tsdbx.Dump
 	exemplars     map[exKey]bool
 	modelDiff     string
@@ -177,7 +217,7 @@ func reopen(c *core.Case, e *tsdbhist.Exec, dir string, exemplars bool) (*opened
 		return nil, err
 	}
 	defer x.Close()
-	o := &opened{}
+	o := &opened{tombs: headTombstones(x)}
 	o.modelDiff = x.Check(c.SubRng("ranges"))
 	o.diag = x.Diagnose()
 	o.tolerated = x.ZombiesObserved + x.Resurrected + x.GhostsMissing + x.OrphansMissing + x.LostBehindOOOMerge
@@ -299,6 +339,7 @@ func run(c *core.Case) {
 		uncleanAt = nops/2 + r.IntN(nops/2+1)
 	}
 	var uncleanModel *tsdbhist.Exec
+	var uncleanTombs map[storage.SeriesRef][]tombstones.Interval
 	restartsBeforeImage := 0
 	for i := 0; i < nops; i++ {
 		op := g.Next()
@@ -335,6 +376,7 @@ func run(c *core.Case) {
 			unclean = c.TempDir()
 			core.Must(copyDir(src, unclean, nil), "copy dir")
 			uncleanModel = e.CloneModel(unclean)
+			uncleanTombs = headTombstones(e)
 			restartsBeforeImage = e.Restarts
 		}
 	}
@@ -344,6 +386,7 @@ func run(c *core.Case) {
 		core.Must(err, "exemplar query before shutdown")
 	}
 	headSeries := e.DB.Head().NumSeries()
+	liveTombs := headTombstones(e)
 	if c.Verbose {
 		c.Logf("state before the final Close:\n%s", e.Diagnose())
 	}
@@ -441,7 +484,7 @@ func run(c *core.Case) {
 			why := ""
 			if ok, txt := lossOfNonPositive(a, b); ok {
 				kind, why = nonPosKind, "\nclassification: "+txt
-			} else if ok, txt := onlyTombstonedDiffer(e, a.sample, b.sample); ok {
+			} else if ok, txt := onlyTombstonedDiffer(e, a.sample, b.sample); ok && covers(a.tombs, liveTombs) {
 				kind, why = "head-tombstones-differ-between-snapshot-and-wal-restart", "\nclassification: "+txt
 			} else if k := refKind(d); k != "" {
 				kind = k
@@ -528,7 +571,7 @@ func run(c *core.Case) {
 			if d := tsdbx.EqualDumps(v.sample, w.sample); d != "" && v.modelDiff == "" && w.modelDiff == "" {
 				kind := "snapshot-vs-wal-mismatch"
 				why := ""
-				if ok, txt := onlyTombstonedDiffer(uncleanModel, v.sample, w.sample); ok {
+				if ok, txt := onlyTombstonedDiffer(uncleanModel, v.sample, w.sample); ok && covers(v.tombs, uncleanTombs) {
 					kind, why = "head-tombstones-differ-between-snapshot-and-wal-restart", "\nclassification: "+txt
 				} else if k := refKind(d); k != "" {
 					kind = k
